@@ -109,6 +109,17 @@ def check_tree(ctx, node, meta, opts=OPTS, det=None):
         elif plain.get(indent) is not None and plain[indent] != s:
             ctx.count('compact_differs')
         if k % 5 == 0:
+            # a bare node tuple is formatted like the Tree that wraps it (docs/api example);
+            # Tree equality and the codec's parse agree with what was compared above
+            if not meta:
+                ok, s4 = ctx.call(penman.format, node, indent=indent, compact=compact, clause='format(node tuple)')
+                if ok and s4 != s:
+                    ctx.fail('format(node-tuple)!=format(Tree)', detail=d)
+            if (t2 == Tree(node)) != (t2.node == node) or (t2 == node) != (t2.node == node):
+                ctx.fail('Tree.__eq__ disagrees with node equality', detail=d)
+            ok, t5 = ctx.call(codec.parse, s, clause='codec.parse')
+            if ok and (t5.node != t2.node or dict(t5.metadata) != dict(t2.metadata)):
+                ctx.fail('codec.parse!=penman.parse', detail=d)
             # other entry points give the same answers
             ok, s3 = ctx.call(codec.format, tree, indent=indent, compact=compact, clause='codec.format')
             if ok and s3 != s:
